@@ -372,7 +372,9 @@ let run_sat (w : int) (c : case) =
         let sat v = if Z.geq v maxv then maxv else v in
         (* exact semantics: the marker absorbs; a result that does not fit is the marker *)
         let o_shl_ a kk =
-          if Z.geq kk (Z.of_int w) then maxv else Z.logand (Z.shift_left a (Z.to_int kk)) maxv
+          if Z.sign a = 0 then Z.zero
+          else if Z.geq kk (Z.of_int w) then maxv
+          else sat (Z.shift_left a (Z.to_int kk))
         in
         let o_shr_ a kk = if Z.equal a maxv then maxv else Z.shift_right a (Z.to_int kk) in
         let ov, mv =
